@@ -43,6 +43,9 @@ import (
 )
 
 // answer codes: 0 has, 1 not found, 2 maintenance status, 3 other error
+// replication outcome codes (what a remote node does with the replicator's request):
+// 0 stores the object, 1 answers with the maintenance status, 2 answers with another failure
+// status, 3 transport failure (default), 4 no client can be made for the node
 // object types: 0 REGULAR, 1 TOMBSTONE, 2 LOCK, 3 LINK
 // net.K: 0 container not found, 1 other error, 2 ok
 
@@ -73,7 +76,7 @@ type polCase struct {
 	InNM     bool     `json:"innm"`
 	MFlag    []int    `json:"mflag"`
 	Ans      [][2]int `json:"ans"`
-	Rep      []int    `json:"rep"`
+	Rep      [][2]int `json:"rep"` // node -> replication outcome code
 	Readable bool     `json:"readable"`
 	Ty       int      `json:"ty"`
 	Ec       *[2]int  `json:"ec"`
@@ -99,6 +102,29 @@ func (c *polCase) answer(n int) int {
 		}
 	}
 	return 3
+}
+
+func (c *polCase) repOutcome(n int) int {
+	for _, a := range c.Rep {
+		if a[0] == n {
+			return a[1]
+		}
+	}
+	return 3
+}
+
+// failure statuses (other than maintenance) a storage node may answer a replication request with;
+// none of them means that the node holds the object afterwards
+var repStatuses = []error{
+	apistatus.ErrObjectAlreadyRemoved,
+	apistatus.ErrObjectAccessDenied,
+	apistatus.ErrContainerNotFound,
+	apistatus.ErrServerInternal,
+	apistatus.ErrBusy,
+	apistatus.ErrObjectNotFound,
+	apistatus.ErrQuotaExceeded,
+	apistatus.ErrSignatureVerification,
+	apistatus.ErrIncomplete,
 }
 
 // ---- fakes ---------------------------------------------------------------
@@ -189,8 +215,15 @@ func (f *fakeClient) ReplicateObject(_ context.Context, _ oid.ID, src io.ReadSee
 	if src != nil {
 		_, _ = io.Copy(io.Discard, src)
 	}
-	if has(f.c.Rep, f.id) {
+	switch f.c.repOutcome(f.id) {
+	case 0:
 		return nil, nil
+	case 1:
+		return nil, apistatus.ErrNodeUnderMaintenance
+	case 2:
+		// which status: fixed by the case and the node, so that all of them occur over a run
+		k := f.id + f.c.Local + len(f.c.Ans) + 3*len(f.c.Rep) + f.c.Ty
+		return nil, repStatuses[k%len(repStatuses)]
 	}
 	return nil, errors.New("replication refused")
 }
@@ -201,6 +234,9 @@ type fakeCons struct {
 }
 
 func (f *fakeCons) Get(_ context.Context, n netmap.NodeInfo) (clientcore.MultiAddressClient, error) {
+	if f.c.repOutcome(nodeID(n)) == 4 {
+		return nil, errors.New("verif: node is unreachable")
+	}
 	return &fakeClient{id: nodeID(n), c: f.c, obs: f.obs}, nil
 }
 
@@ -428,8 +464,9 @@ func genCase(r *rng) *polCase {
 		if r.chance(1, 6) {
 			c.MFlag = append(c.MFlag, n)
 		}
-		if r.chance(1, 2) {
-			c.Rep = append(c.Rep, n)
+		// stores / maintenance status / other status / transport failure (absent) / unreachable
+		if o := [8]int{0, 0, 0, 0, 1, 2, 3, 4}[r.intn(8)]; o != 3 {
+			c.Rep = append(c.Rep, [2]int{n, o})
 		}
 	}
 	c.Ty = [8]int{0, 0, 0, 0, 1, 2, 3, 0}[r.intn(8)]
